@@ -18,6 +18,7 @@ import KafkaVerif.Gen.GroupFacts
 import KafkaVerif.Lemmas.Group
 import KafkaVerif.Lemmas.GroupFront
 import KafkaVerif.Lemmas.ReaderRun
+import KafkaVerif.Lemmas.GroupLog
 
 namespace KV.Commit.C03
 open KV.Commit
@@ -227,6 +228,35 @@ the delivered records is simply not a step of the model -/
 example : grun false {} [.produce, .produce, .assign 1, .deliver 0, .commit 1 2 true] = none := by decide
 
 end GroupHistory
+
+/-! ## group history over a log WITH HOLES (compaction): the same statements relative to the STORED records -/
+section GroupLogSection
+open KV.GroupLog
+
+/-- per assignment: every stored record between the start position and the current position was handed to the member,
+only stored records were, each to this member (gap-free relative to what the partition stores) -/
+theorem no_gap_per_assignment_stored (s : KV.GroupLog.G) (h : KV.GroupLog.GReachable s) (rd : KV.GroupLog.Reader)
+    (hrd : rd ∈ s.readers) :
+    (∀ r ∈ s.log, rd.start ≤ r → r < rd.pos → r ∈ rd.epoch) ∧
+    (∀ r ∈ rd.epoch, r ∈ s.log ∧ (rd.m, r) ∈ s.delivered ∧ rd.start ≤ r ∧ r < rd.pos) :=
+  ⟨(KV.GroupLog.ginv_reachable s h).noskip rd hrd, (KV.GroupLog.ginv_reachable s h).mine rd hrd⟩
+
+/-- every STORED record below an acknowledged commit was delivered to some member before -/
+theorem delivered_before_covered_stored (s : KV.GroupLog.G) (h : KV.GroupLog.GReachable s) (c : Nat)
+    (hc : s.committed = some c) : ∀ r ∈ s.log, r < c → ∃ m, (m, r) ∈ s.delivered :=
+  (KV.GroupLog.ginv_reachable s h).cov c hc
+
+/-- quiescent (some member's position is past every stored offset) ⇒ every stored record was delivered -/
+theorem quiescent_all_delivered_stored (s : KV.GroupLog.G) (h : KV.GroupLog.GReachable s) (rd : KV.GroupLog.Reader)
+    (hrd : rd ∈ s.readers) (hq : ∀ r ∈ s.log, r < rd.pos) : ∀ r ∈ s.log, ∃ m, (m, r) ∈ s.delivered :=
+  fun r hr => (KV.GroupLog.ginv_reachable s h).below rd hrd r hr (hq r hr)
+
+/-- non-vacuity: stored offsets 0 3 4 9 (holes), two members, a rebalance, re-delivery from the commit -/
+example : (KV.GroupLog.grun {} [.produce 0, .produce 3, .produce 4, .assign 1, .deliver 0, .deliver 0, .commit 1 4 true,
+    .produce 9, .assign 2, .deliver 1, .deliver 1, .commit 2 10 true]).map (fun s => (s.committed, s.delivered))
+    = some (some 10, [(1, 0), (1, 3), (2, 4), (2, 9)]) := by decide
+
+end GroupLogSection
 
 /-! ## the Reader front between the fetchers and the application (justifies the `deliver` step of the group history)
 
